@@ -563,6 +563,11 @@ def _recipe_requests():
 
     # codecs that exist but reject the text in their own way (plain UnicodeError / ValueError, not UnicodeDecodeError / LookupError)
     special = {f"urlencoded-charset-{n}": urlenc(cs, b"a=\xff") for n, cs in (("undefined", "undefined"), ("nul", "a\x00b"), ("idna", "idna"), ("punycode", "punycode"))}
+    # the same codecs (and ordinary ones) with an ASCII body that carries percent escapes, plus-signs and a truncated escape: whatever decodes the
+    # escapes may be handed the declared charset too
+    for n, cs in (("undefined", "undefined"), ("idna", "idna"), ("punycode", "punycode"), ("utf-16", "utf-16"), ("utf-7", "utf-7"), ("ascii", "ascii"),
+                  ("cp037", "cp037"), ("unicode-escape", "unicode_escape"), ("rot13", "rot13"), ("hex", "hex"), ("base64", "base64"), ("zlib", "zlib")):
+        special[f"urlencoded-escapes-charset-{n}"] = urlenc(cs, b"a=%41&b=%E9+x&c=%")
     special.update({f"multipart-charset-{n}": multipart_charset(cs) for n, cs in (("undefined", "undefined"), ("punycode", "punycode"), ("idna", "idna"), ("nul", "a\x00b"))})
     def date_header(value):
         def run(iface):
